@@ -470,3 +470,22 @@ Lemma validated_first_position_refuted :
   let v := RSV 4 [9] [1065353216] in
   validate_rsv (VC true false true) 1024 true v = true /\ rsv_to_dense v = None.
 Proof. vm_compute. split; reflexivity. Qed.
+
+(* ================================================================= range requests *)
+(* with the saturating count an accepted request asks for at most the configured number of blocks *)
+Lemma block_req_sound (count : N -> N -> N) :
+  (forall f t, f < W64 -> t < W64 -> f <= t -> count f t = N.min ((t - f) + 1) (W64 - 1)) ->
+  forall maxb f t, f < W64 -> t < W64 -> maxb < W64 - 1 ->
+  validate_block_req true count maxb f t = true -> f <= t /\ t - f + 1 <= maxb.
+Proof.
+  intros Hc maxb f t Hf Ht Hm H. unfold validate_block_req in H. cbn [andb] in H.
+  apply andb_prop in H. destruct H as [H1 H2].
+  apply negb_true_iff in H1. apply N.ltb_ge in H1. apply N.leb_le in H2.
+  rewrite (Hc f t Hf Ht H1) in H2. unfold W64 in *. split; lia.
+Qed.
+
+(* with the machine's wrapping arithmetic (to - from + 1) the statement is false: the full range counts as 0 *)
+Lemma block_req_wrapping_refuted :
+  let count := fun f t => (((t + W64 - f) mod W64) + 1) mod W64 in
+  validate_block_req true count 1000 0 (W64 - 1) = true /\ ~ ((W64 - 1) - 0 + 1 <= 1000).
+Proof. split; [vm_compute; reflexivity|unfold W64; lia]. Qed.
